@@ -152,11 +152,23 @@ type verifC25Sink struct {
 	failNext int
 	failed   int
 	writes   int
+
+	// hold: the endpoint answers a transmission only when the harness lets it (answer): the caller
+	// - the leader loop - stays inside Write meanwhile. Whether the answer is a success or a failure
+	// is decided when it is given.
+	hold    bool
+	gate    chan struct{}
+	waiting int // transmissions waiting for their answer
 }
 
 var verifC25ErrEndpoint = errors.New("verif: endpoint unavailable")
 
 func (s *verifC25Sink) Write(p []byte) (int, error) {
+	tenure := s.w.tenure
+	if s.hold {
+		s.waiting++
+		<-s.gate
+	}
 	if s.down || s.failNext > 0 {
 		if !s.down {
 			s.failNext--
@@ -167,7 +179,7 @@ func (s *verifC25Sink) Write(p []byte) (int, error) {
 	}
 	s.writes++
 	// recorded here (a service goroutine), judged by the harness goroutine (check)
-	s.w.payloads = append(s.w.payloads, verifC25Payload{data: append([]byte(nil), p...), tenure: s.w.tenure})
+	s.w.payloads = append(s.w.payloads, verifC25Payload{data: append([]byte(nil), p...), tenure: tenure})
 	s.w.nPayloads.Add(1)
 	return len(p), nil
 }
@@ -274,7 +286,7 @@ func verifNewC25World(batchSz int) *verifC25World {
 		w.dir = d
 	}
 	w.clstr = &verifC25Cluster{w: w}
-	w.sink = &verifC25Sink{w: w}
+	w.sink = &verifC25Sink{w: w, gate: make(chan struct{})}
 	verifSetClock(1_000_000_000_000)
 	w.boot()
 	return w
@@ -306,6 +318,7 @@ func (w *verifC25World) boot() {
 // is ended here - if it is waiting to pass a batch on to the main loop that no longer exists, the
 // batch (in memory only) is taken from it first.
 func (w *verifC25World) stopService() {
+	w.answerAll() // Stop waits for the leader loop, the leader loop for the endpoint's answer
 	w.svc.Stop()
 	for i := 0; i < 4; i++ {
 		verifSettle()
@@ -329,6 +342,26 @@ func (w *verifC25World) finish() {
 	verifSettle()
 	if !verifSymbolic() {
 		os.RemoveAll(w.dir)
+	}
+}
+
+// answer: the endpoint answers the oldest transmission it is holding (the leader loop returns from
+// Write); false: it holds none.
+func (w *verifC25World) answer() bool {
+	if w.sink.waiting == 0 {
+		return false
+	}
+	verifReach("held-transmission-answered")
+	w.sink.waiting--
+	w.sink.gate <- struct{}{}
+	w.settle()
+	return true
+}
+
+// answerAll: the endpoint stops holding transmissions and answers those it holds.
+func (w *verifC25World) answerAll() {
+	w.sink.hold = false
+	for w.answer() {
 	}
 }
 
@@ -511,6 +544,10 @@ func (w *verifC25World) setLeader(on bool) {
 	w.leader = on
 	w.clstr.leaderCh <- on
 	w.settle()
+	if !on && w.sink.waiting > 0 {
+		// mainLoop has closed the leader loop's stop channel and waits for it; it is inside Write
+		verifReach("step-down-during-transmission")
+	}
 	if !on {
 		for _, g := range w.groups {
 			if g.refused && !g.delivered {
@@ -634,6 +671,7 @@ func (w *verifC25World) clusterUpdate(v uint64) {
 // epilogue: the node is (or becomes) leader, the endpoint is healthy, time passes.
 func (w *verifC25World) epilogue(twin bool) {
 	w.sink.failNext, w.sink.down = 0, false
+	w.answerAll()
 	w.setLeader(true)
 	w.tick(2 * verifC25HWMEvery)
 	if twin {
@@ -671,6 +709,8 @@ const (
 	vC25ClusterHWM
 	vC25Outage
 	vC25BurstSnapshot
+	vC25Hold
+	vC25Answer
 	vC25NumOps
 )
 
@@ -741,6 +781,14 @@ func (w *verifC25World) step(i int, ops []int) bool {
 		w.burst = false
 		verifReach("snapshot-sync-after-burst")
 		w.snapshotSync()
+	case vC25Hold:
+		// from now on the endpoint is slow: a transmission is answered when the harness says so
+		if w.sink.hold {
+			return false
+		}
+		w.sink.hold = true
+	case vC25Answer:
+		return w.answer()
 	}
 	return true
 }
@@ -862,6 +910,33 @@ func VerifC25bSnapshotRacePreempt() {
 	}
 	w.window = 1 + verifTier()
 	w.step(0, []int{vC25BurstSnapshot})
+}
+
+// VerifC25bBusyEndpoint: stimuli arriving WHILE a transmission is running. The endpoint answers
+// only when the harness lets it, so the leader loop is inside sink.Write while further groups go
+// into the disk queue (which then has its next item ready to hand out), the node steps down
+// (mainLoop closes the leader loop's stop channel and waits for it) and possibly becomes leader
+// again; then the transmission is answered: the leader loop comes back to a select with its stop
+// channel AND the disk queue's channel ready. Both outcomes of that select (and of every other one
+// with several ready cases) are explored; the disk queue hands an item out once per incarnation,
+// so whichever way the loop leaves, the item must not be lost.
+//
+// Quick tier: batch size 1, leader; endpoint slow, two entries, step-down during the first
+// transmission; then every history of 1 of: answer, leader change, feed, HWM interval - the
+// epilogue answers what is still held. Thorough tier: see VerifC25bBusyEndpointLong.
+func VerifC25bBusyEndpoint() {
+	verifC25HistoryFrom(1, 1, true,
+		[]int{vC25Hold, vC25Feed, vC25Feed, vC25Leader},
+		[]int{vC25Answer, vC25Leader, vC25Feed, vC25TickHWM})
+}
+
+// VerifC25bBusyEndpointLong (thorough tier): batch size 1 or 2, leader, endpoint slow, one entry
+// handed over (its transmission is running when the history begins); then every history of 6 of:
+// feed, batch timer, leader change, answer, the next answer is a failure, HWM interval.
+func VerifC25bBusyEndpointLong() {
+	verifC25HistoryFrom(1+verifChoice("batchSz", 2), 6, true,
+		[]int{vC25Hold, vC25Feed},
+		[]int{vC25Feed, vC25TickBatch, vC25Leader, vC25Answer, vC25FailNext, vC25TickHWM})
 }
 
 // VerifC25bStartup: what a restarted service does with a disk queue whose batches were never
